@@ -55,18 +55,29 @@ def validate(ctx, trace, spec, cfg, mine, key_prefix, describe):
         raise vlib.CheckError("trace rejected without a broken clause (%s): %s" % (spec, json.dumps(info)[:1500]))
     rows = None
     hit = False
+    noted = set()
+    seen_keys = {}
     for line, clause in broken:
         belongs = mine(clause) if callable(mine) else clause in mine
         if not belongs:
-            ctx.notes.append("clause %s (another property's) broken at trace line %d" % (clause, line))
+            if clause not in noted:
+                noted.add(clause)
+                ctx.notes.append("clause %s (another property's) broken, first at trace line %d" % (clause, line))
             continue
         hit = True
+        # every occurrence is classified (a recorded known finding must not hide another violation of the same clause later
+        # in the run); the work per distinct key is bounded
+        if sum(seen_keys.values()) > 400:
+            break
         rows = rows or vlib.read_ndjson(trace)
         row = rows[line - 1]
         start = max(i for i in range(line) if rows[i].get("ev") == "Genesis")
         ex = ctx.path("replay_%s.ndjson" % clause)
         vlib.write_ndjson(ex, rows[max(start, line - 6):line])
         key, what = describe(clause, row, rows, line)
+        seen_keys[key] = seen_keys.get(key, 0) + 1
+        if seen_keys[key] > 1:
+            continue
         vlib.report_violation(ctx, key_prefix + ":" + key, what, replay_src=ex,
                               payload={"clause": clause, "line": line, "history": row.get("hid"), "height": row.get("h")})
     return not hit, info
